@@ -1134,3 +1134,9 @@ def coq_equation(c, mr):
     if op == "encode_pem" and len(a[0]) < 150:
         return "c14_encode_pem b64enc %s %s %s = %s" % (coq_bytes(a[0]), coq_bytes(a[1]), coq_bytes(a[2]), coq_lit(mr[1]))
     return None
+
+
+# ops whose answer must not depend on the concrete bytes-like type of their arguments (they agree on the pinned tree;
+# tools/bytearray_probe.py); common.py re-runs a sample of their cases with bytearray arguments
+BYTEARRAY_OPS = {'parse_oid', 'decode_base64_pem', 'pubkey_from_pem', 'der_encode_key', 'wif_decode_full', 'parse_asn1', 'wif_encode', 'encode_pem', 'point', 'pem_decode_key', 'pem_encode_key', 'is_point', 'compressed_pubkey', 'wif_decode'}
+MEMORYVIEW_OPS = {'point', 'parse_asn1', 'der_encode_key', 'is_point', 'compressed_pubkey', 'pem_encode_key', 'parse_oid', 'wif_encode'}
